@@ -477,7 +477,8 @@ def floordiv(x, y, out=None, out_like=None, sizing='optimal', method='raw', **kw
         _floordiv_raw = _floordiv_raw_complex
 
     signed = x.signed or y.signed
-    n_int = x.n_int + y.n_frac + signed
+    # (at least the sign bit, or one bit when unsigned: the quotient of operands with no integer bits in common is 0 or -1)
+    n_int = max(x.n_int + y.n_frac + signed, 0 if signed else 1)
     n_frac = 0
     n_word = int(signed) + n_int + n_frac
     optimal_size = (signed, n_word, n_int, n_frac)
